@@ -43,6 +43,9 @@ def _body(E, w, prog):
         m = catalog.stages(E, w, prog.node, {stage})[stage]
         whole, dsk, r = catalog.run_tree(E, m, prog.node.chunks, stage)
         same_array(E, whole, prog.ref, label=f"{stage}-values", skolem=f"p{stage[-1]}")
+        if stage == "materialized":
+            # the value compute() returns: finalize over the root's own key nesting
+            same_array(E, catalog.computed(E, w, m), prog.ref, label="computed-values", skolem="pc")
 
 
 def instances(tier):
